@@ -262,7 +262,10 @@ class AbstractAst:
                 var = class_()
             except KeyError:
                 raise RTAMTException('The type {} does not seem to be imported.'.format(var_type))
-            except (AttributeError, TypeError):
+            except RTAMTException:
+                raise
+            except Exception:
+                # whatever the constructor of an imported type raises (pathlib.WindowsPath: NotImplementedError)
                 raise RTAMTException('The type {0} cannot be created from the module {1}.'.format(var_type, var_module.__name__))
         return var
 
